@@ -151,7 +151,7 @@ func init() {
 	parserJudges["C04"] = judgeC04
 	register(&Check{
 		ID:        "C04",
-		QuickSecs: 300, ThoroSecs: 1500,
+		QuickSecs: 300, ThoroSecs: 3000,
 		Rule: "input-space exploration, differential: argv = pre ++ [`--`] ++ tail for every pre of length <= Lp over 17 tokens (positional, flag, valued / optional-valued / greedy multi-valued / map options and their values, command, unknown option) and every tail of length <= Lt over 11 tokens " +
 			"(known options, command name, further `--`, unknown and short options) in all 18 configurations; unless the reference model says the `--` is the still-missing mandatory value of the option before it (then the statement is applied to the next `--` of the tail), Parse(argv) must equal Parse(pre) in every option value, Called, warning and dispatch target and return remaining(pre) ++ tail; when Parse(pre) fails, Parse(argv) must fail with every option value and Called flag as after Parse(pre); " +
 			"distinct_nontrivial = distinct in-domain (configuration, pre, tail) cases",
